@@ -137,7 +137,7 @@ fn judge_transmits(w: &World, ei: usize, ch: usize, facts: &Facts, may_migrate: 
     }
 }
 
-fn migrate_case(seed: u64, lane: Lane, trace: bool) -> CaseOut {
+pub fn migrate_case(seed: u64, lane: Lane, trace: bool) -> CaseOut {
     let mut r = Rng::new(seed ^ 0xC15A);
     let faults = r.chance(50);
     let h = scenario(seed, lane, &mut r, faults);
@@ -236,6 +236,8 @@ fn migrate_case(seed: u64, lane: Lane, trace: bool) -> CaseOut {
             viol.push(format!("[C07] {}", v.msg));
         } else if matches!(v.prop, "C01" | "C11") {
             viol.push(format!("[{}] {}", v.prop, v.msg));
+        } else if v.prop == "C12" {
+            out.viol.push(Violation { prop: "C12", msg: v.msg.clone() });
         }
     }
     let desc = format!("moves={:?} {}", moves.iter().take(next_move).map(|m| (m.0 / 1_000_000, m.1, m.2)).collect::<Vec<_>>(), h.summary());
